@@ -26,19 +26,25 @@ ASSUMPTIONS = [
 ]
 
 
+def _canon(t):
+    """the description string carried by FixedPointOrdering ("less" / "no relation") is free text the property says nothing
+    about: an error of that kind at that location is what is compared (a rewording must not raise an alarm)"""
+    return t.replace("err:ordering:less@", "err:ordering@").replace("err:ordering:norel@", "err:ordering@")
+
+
 def classify(c):
-    s = c.spec
+    impl, model, s = _canon(c.impl), _canon(c.model), _canon(c.spec)
     if s.startswith("lfp"):
         # small step budget: the least solution or FixedPointMaxSteps
-        if c.impl != "err:maxsteps" and c.impl != "ok" + s[3:]:
+        if impl != "err:maxsteps" and impl != "ok" + s[3:]:
             return "violation"
     elif s == "unsound":
-        return "violation" if c.impl == c.model else "broken"
+        return "violation" if impl == model else "broken"
     elif s in ("-", "?", "sound"):
         pass
-    elif c.impl != s:
+    elif impl != s:
         return "violation"
-    if c.impl != c.model:
+    if impl != model:
         return "broken"
     return "ok"
 
